@@ -57,7 +57,9 @@ def body_factory(tier, seed):
                 ['[2,null,"Heartbeat",{}]', '[2,null,"Heartbeat",{}]', '[2,0,"Heartbeat",{}]', '[2,false,"Heartbeat",{}]',
                  '[2,"","Heartbeat",{}]', '[2,"","Heartbeat",{}]', '[2,0,"Nope",{}]'],
                 ['[2,"a","Heartbeat",{}]', '[2,"b","Nope",{}]', '[2,"a","Heartbeat",{}]', '[3,"a",{}]', '[2,"a","Heartbeat",{}]'],
-                ['[3,"r%d",{}]' % i for i in range(14)] + ['[2,"after-replies","Heartbeat",{}]']]
+                ['[3,"r%d",{}]' % i for i in range(14)] + ['[2,"after-replies","Heartbeat",{}]'],
+                # more unsolicited replies than any small buffer holds, nobody waiting for them
+                ['[3,"r%d",{}]' % i if i % 2 else '[4,"r%d","GenericError","",{}]' % i for i in range(1100)] + ['[2,"after-flood","Heartbeat",{}]']]
         for version in ("1.6", "2.0.1"):
             for frames in seqs:
                 seq, how = D.observe_loop(version, [hbp], frames, "closed", False)
